@@ -93,7 +93,7 @@ func (x *c19) name(fn *ssa.Function) string { return FuncName(x.p, fn) }
 
 func checkC19(c *Ctx) {
 	r, p := c.R, c.P
-	r.Explanation = "Decides structural necessary conditions of C19 on crypto/spiffe. Constructs are resolved by role (types + dataflow), not by unexported names: the SVID field is the struct field of type *x509svid.SVID, its lock the mutex held where it is stored, the readiness channel the channel field Ready waits on, a fetcher any function returning (*x509svid.SVID, error), the rotation code everything reachable from Run; same-package callees (static calls, closures, deferred calls) are followed by summaries, helpers' contexts by their call sites; calls of function VALUES are followed when every possible target is a known package function (function literals and bound method values in temporaries, captured variables, parameters, named func adapter types, unexported func-typed fields, local literal tables); a literal handed to a helper that calls it (withLock(func(){...})) runs with the helper's locks (second lockset pass with entry locksets handed over) and its closes/fetches are counted at the helper's call of the parameter; GetX509SVID must load the served field during the call (a value captured earlier is a stale source); a channel field that only ever receives the value of one other channel field (a copy kept by the source) denotes that channel; invoke calls on an unexported interface with a single implementing type of the package are followed; closes inside sync.Once.Do take effect once per Once; the search for the first wait after a failed fetch leaves phase helpers through their returns into every call site, carrying the constants / flags / enums returned on that path and pruning the caller's branches with them; the file map of dir.Write is analysed as a whole (literals, loops, maps.Copy/Clone). " +
+	r.Explanation = "Decides structural necessary conditions of C19 on crypto/spiffe. Constructs are resolved by role (types + dataflow), not by unexported names: the SVID field is the struct field of type *x509svid.SVID, its lock the mutex held where it is stored, the readiness channel the channel field Ready waits on, a fetcher any function returning (*x509svid.SVID, error), the rotation code everything reachable from Run; same-package callees (static calls, closures, deferred calls) are followed by summaries, helpers' contexts by their call sites; calls of function VALUES are followed when every possible target is a known package function (function literals and bound method values in temporaries, captured variables, parameters, named func adapter types, unexported func-typed fields, local literal tables); a literal handed to a helper that calls it (withLock(func(){...})) runs with the helper's locks (second lockset pass with entry locksets handed over) and its closes/fetches are counted at the helper's call of the parameter; GetX509SVID must load the served field during the call (a value captured earlier is a stale source); a channel field that only ever receives the value of one other channel field (a copy kept by the source) denotes that channel; invoke calls on an unexported interface with a single implementing type of the package are followed; closes inside sync.Once.Do take effect once per Once; the search for the first wait after a failed fetch leaves phase helpers through their returns into every call site, carrying the constants / flags / enums returned on that path and pruning the caller's branches with them; the file map of dir.Write is analysed as a whole (literals, loops, maps.Copy/Clone); a mutex used as a VALUE is resolved: Lock/Unlock invoked on a sync.Locker (local, unexported field) denoting &mu (write side) or mu.RLocker() (read side), and locks handed to a helper as a parameter (sync.Locker or *sync.(RW)Mutex) held around the helper's call of its callback, resolved per call site. " +
 		"(X1) no wait for readiness (receive or select on the readiness channel, directly or through a callee) happens while holding the SVID lock in a mode that conflicts with what every close of the channel needs (held at the close, or acquired on every path to it) — the GetX509SVID/Run deadlock; a select whose other cases are only context cancellation counts as a wait. " +
 		"(X2) on every path through Run on which the initial fetch was started the channel is closed exactly once (closes counted through callees and deferred calls); a return without close is only accepted before the fetch, behind the atomic compare-and-swap 'already running' guard; Ready selects on the channel and its context only. " +
 		"(X3) the SVID field is written only under the write lock and read under the lock; every value stored is result 0 of a fetcher call whose error is known nil (or the value known non-nil) at the store, followed through parameters of helpers to all their call sites; GetX509SVID returns a value loaded from the field. " +
@@ -190,11 +190,23 @@ func (x *c19) handOffCallbacks() {
 						return
 					}
 					n++
-					ls := e0.At(j)
+					ls := e0.At(j).clone()
+					// locks the helper takes on a lock handed in as a PARAMETER (a
+					// sync.Locker or a *sync.(RW)Mutex), resolved with this call's arguments
+					for k, kind := range x.paramLocksAt(h, j) {
+						if k >= len(ci.Common().Args) {
+							continue
+						}
+						if id, mode, ok := c19LockArg(ci.Common().Args[k], kind); ok {
+							if ls[id] < mode {
+								ls[id] = mode
+							}
+						}
+					}
 					if old, ok := hand[lit]; ok {
 						hand[lit] = meetLS(old, ls)
 					} else {
-						hand[lit] = ls.clone()
+						hand[lit] = ls
 					}
 				})
 				// the parameter must not travel anywhere else
@@ -218,11 +230,234 @@ func (x *c19) handOffCallbacks() {
 		e.Handoff[FuncName(x.p, lit)] = ls
 		n++
 	}
+	// lock operations invoked on a sync.Locker VALUE of the package (a local, a
+	// field assigned from &mu or mu.RLocker()) are resolved to the mutex behind it
+	for _, fn := range x.fns {
+		allInstrs(fn, func(in ssa.Instruction) {
+			if ci, ok := in.(ssa.CallInstruction); ok {
+				if _, _, ok := x.lockerOp(ci); ok {
+					n++
+				}
+			}
+		})
+	}
 	if n == 0 {
 		return
 	}
+	e.LockOpHook = x.lockerOp
 	e.Run()
 	x.e = e
+}
+
+// lockerOp: Lock/Unlock invoked on an interface value (sync.Locker) that
+// denotes one mutex of the package in one mode: &x.mu (Lock = write lock) or
+// x.mu.RLocker() (Lock = read lock), through locals and unexported fields
+// whose every store agrees.
+func (x *c19) lockerOp(ci ssa.CallInstruction) (string, lockOpKind, bool) {
+	cc := ci.Common()
+	if !cc.IsInvoke() || cc.Method == nil || ci.Parent() == nil || !x.inPkg[origin(ci.Parent())] {
+		return "", 0, false
+	}
+	name := cc.Method.Name()
+	if name != "Lock" && name != "Unlock" {
+		return "", 0, false
+	}
+	id, mode, ok := x.lockerValue(cc.Value, 0)
+	if !ok {
+		return "", 0, false
+	}
+	switch {
+	case name == "Lock" && mode == ModeW:
+		return id, opLock, true
+	case name == "Lock":
+		return id, opRLock, true
+	case mode == ModeW:
+		return id, opUnlock, true
+	}
+	return id, opRUnlock, true
+}
+
+func (x *c19) lockerValue(v ssa.Value, depth int) (string, Mode, bool) {
+	if v == nil || depth > 6 {
+		return "", 0, false
+	}
+	agree := func(vals []ssa.Value) (string, Mode, bool) {
+		id0, m0 := "", ModeNone
+		for i, a := range vals {
+			id, m, ok := x.lockerValue(a, depth+1)
+			if !ok || (i > 0 && (id != id0 || m != m0)) {
+				return "", 0, false
+			}
+			id0, m0 = id, m
+		}
+		return id0, m0, id0 != ""
+	}
+	switch t := v.(type) {
+	case *ssa.MakeInterface, *ssa.ChangeInterface:
+		return c19LockArg(v, ModeW)
+	case *ssa.Call:
+		return c19LockArg(v, ModeW)
+	case *ssa.Phi:
+		return agree(t.Edges)
+	case *ssa.FreeVar:
+		if b := resolveFreeVar(t); b != nil {
+			return x.lockerValue(b, depth+1)
+		}
+	case *ssa.UnOp:
+		if t.Op != token.MUL {
+			return "", 0, false
+		}
+		if cell := cellOf(t.X); cell != nil {
+			var vals []ssa.Value
+			for _, st := range c19CellStores(cell) {
+				vals = append(vals, st.Val)
+			}
+			return agree(vals)
+		}
+		if fa, ok := t.X.(*ssa.FieldAddr); ok {
+			id := fieldIDOfAddr(fa)
+			if !strings.HasPrefix(id.Type, x.pkg+".") || token.IsExported(id.Field) {
+				return "", 0, false
+			}
+			var vals []ssa.Value
+			for _, fn := range x.fns {
+				allInstrs(fn, func(in ssa.Instruction) {
+					if st, ok := in.(*ssa.Store); ok {
+						if f2, ok := st.Addr.(*ssa.FieldAddr); ok && fieldIDOfAddr(f2) == id {
+							vals = append(vals, st.Val)
+						}
+					}
+				})
+			}
+			return agree(vals)
+		}
+	}
+	return "", 0, false
+}
+
+// paramLocksAt: which lock-typed PARAMETERS of helper h are certainly held
+// (by h's own Lock/RLock calls on them, not yet released) just before
+// instruction at. kind: ModeW = taken with Lock, ModeR = taken with RLock.
+func (x *c19) paramLocksAt(h *ssa.Function, at ssa.Instruction) map[int]Mode {
+	paramOf := func(v ssa.Value) int {
+		for {
+			switch t := v.(type) {
+			case *ssa.ChangeInterface:
+				v = t.X
+				continue
+			case *ssa.ChangeType:
+				v = t.X
+				continue
+			}
+			break
+		}
+		if pa, ok := v.(*ssa.Parameter); ok && pa.Parent() == h {
+			return c19ParamIndex(pa)
+		}
+		return -1
+	}
+	op := func(ci ssa.CallInstruction) (int, string) {
+		cc := ci.Common()
+		name := ""
+		var recv ssa.Value
+		if cc.IsInvoke() {
+			name, recv = cc.Method.Name(), cc.Value
+		} else if obj := calleeObj(ci); obj != nil && obj.Pkg() != nil && obj.Pkg().Path() == "sync" && len(cc.Args) > 0 {
+			name, recv = obj.Name(), cc.Args[0]
+		}
+		switch name {
+		case "Lock", "RLock", "Unlock", "RUnlock":
+			if k := paramOf(recv); k >= 0 && k < 16 {
+				return k, name
+			}
+		}
+		return -1, ""
+	}
+	any := false
+	allInstrs(h, func(in ssa.Instruction) {
+		if ci, ok := in.(ssa.CallInstruction); ok {
+			if k, _ := op(ci); k >= 0 {
+				any = true
+			}
+		}
+	})
+	if !any {
+		return nil
+	}
+	var ff *FlagFlow
+	ff = &FlagFlow{Fn: h, Must: true, Transfer: func(in ssa.Instruction, st uint64) uint64 {
+		ci, ok := in.(ssa.CallInstruction)
+		if !ok {
+			return st
+		}
+		if _, isDefer := in.(*ssa.Defer); isDefer && !ff.Replaying {
+			return st
+		}
+		if _, isGo := in.(*ssa.Go); isGo {
+			return st
+		}
+		k, name := op(ci)
+		if k < 0 {
+			return st
+		}
+		w, r := uint64(1)<<uint(2*k), uint64(1)<<uint(2*k+1)
+		switch name {
+		case "Lock":
+			st |= w
+		case "RLock":
+			st |= r
+		case "Unlock":
+			st &^= w
+		case "RUnlock":
+			st &^= r
+		}
+		return st
+	}}
+	ff.Run()
+	st, ok := ff.Before(at)
+	if !ok {
+		return nil
+	}
+	out := map[int]Mode{}
+	for k := 0; k < 16; k++ {
+		switch {
+		case st&(1<<uint(2*k)) != 0:
+			out[k] = ModeW
+		case st&(1<<uint(2*k+1)) != 0:
+			out[k] = ModeR
+		}
+	}
+	return out
+}
+
+// c19LockArg: the mutex (and mode) an argument bound to a lock-typed parameter
+// denotes: &x.mu / x.mu as sync.Locker (Lock = write lock), x.mu.RLocker()
+// (Lock = read lock), a *sync.RWMutex / *sync.Mutex.
+func c19LockArg(a ssa.Value, kind Mode) (string, Mode, bool) {
+	for {
+		switch t := a.(type) {
+		case *ssa.MakeInterface:
+			a = t.X
+			continue
+		case *ssa.ChangeInterface:
+			a = t.X
+			continue
+		}
+		break
+	}
+	if call, ok := a.(*ssa.Call); ok && callIs(call, "sync", "RWMutex", "RLocker") && len(call.Call.Args) == 1 {
+		if id, ok := lockIdent(call.Call.Args[0]); ok {
+			return id, ModeR, true
+		}
+		return "", 0, false
+	}
+	if !c19IsMutex(a.Type()) {
+		return "", 0, false
+	}
+	if id, ok := lockIdent(a); ok {
+		return id, kind, true
+	}
+	return "", 0, false
 }
 
 // ---------------------------------------------------------------- roles
